@@ -44,6 +44,8 @@ pub struct Shim {
     pub events: Vec<Ev>,   // micro events of the current call (when `record_events`)
     pub record_events: bool,
     pub tracked: Option<(usize, usize, usize)>, // the shared block of pipeline D: user address, size, id
+    pub heap_log: Option<Vec<Ev>>, // every event, across calls (for the buffer-protocol monitor)
+    pub purge_at: usize,   // > 0: once this many blocks are known, the dead ones are checked and given back
 }
 
 /// micro event as recorded for the concurrency pipeline
@@ -55,6 +57,7 @@ pub struct Ev {
     pub val: usize,  // previous value (rmw) / loaded value / size
     pub blk: usize,  // block id (0: not a shim block)
     pub x: bool,     // concerns the tracked shared block (pipeline D)
+    pub dead: bool,  // the block had already been given back when the event happened
 }
 
 pub static SHIM: Mutex<Option<Shim>> = Mutex::new(None);
@@ -135,6 +138,22 @@ impl Shim {
         }
         errs
     }
+    /// Long runs (the repository's test-suite): checks the quarantined blocks and gives them back.
+    fn purge_dead(&mut self) {
+        let dead: Vec<Block> = self.blocks.values().filter(|b| !b.live).cloned().collect();
+        for b in dead {
+            if !Self::canaries_ok(&b) {
+                self.err(format!("canary:block#{} guard zone damaged", b.id));
+            }
+            let body = unsafe { std::slice::from_raw_parts(b.user as *const u8, b.size) };
+            if !body.iter().all(|&x| x == POISON) {
+                self.err(format!("write-after-free:block#{}", b.id));
+            }
+            let l = Layout::from_size_align(b.size + 2 * GUARD, GUARD.max(b.align)).unwrap();
+            unsafe { System.dealloc((b.user - GUARD) as *mut u8, l) };
+            self.blocks.remove(&b.user);
+        }
+    }
     pub fn live_blocks(&self) -> Vec<(usize, usize)> {
         self.blocks.values().filter(|b| b.live).map(|b| (b.id, b.size)).collect()
     }
@@ -145,6 +164,9 @@ unsafe fn sh_alloc(l: Layout) -> *mut u8 {
         if s.request_refused(l.size()) {
             s.ev("alloc", "fail", l.size(), 0, 0);
             return std::ptr::null_mut();
+        }
+        if s.purge_at > 0 && s.blocks.len() >= s.purge_at {
+            s.purge_dead();
         }
         let user = unsafe { s.raw_alloc(l.size(), l.align()) };
         let id = s.lowest_free_id();
@@ -226,9 +248,18 @@ fn ord(o: std::sync::atomic::Ordering) -> &'static str {
 
 impl Shim {
     fn ev(&mut self, kind: &'static str, order: &'static str, val: usize, blk: usize, bu: usize) {
-        if self.record_events {
+        self.ev_d(kind, order, val, blk, bu, false)
+    }
+    fn ev_d(&mut self, kind: &'static str, order: &'static str, val: usize, blk: usize, bu: usize, dead: bool) {
+        if self.record_events || self.heap_log.is_some() {
             let x = matches!(self.tracked, Some((u, _, _)) if u == bu && bu != 0);
-            self.events.push(Ev { tid: crate::gate::tid(), kind, order, val, blk, x });
+            let e = Ev { tid: crate::gate::tid(), kind, order, val, blk, x, dead };
+            if let Some(l) = &mut self.heap_log {
+                l.push(e.clone());
+            }
+            if self.record_events {
+                self.events.push(e);
+            }
         }
     }
     fn access(&mut self, kind: &'static str, ptr: usize, len: usize) {
@@ -246,7 +277,7 @@ impl Shim {
                 self.err(format!("shared-write:write into block#{} while its count is {rc}", b.id));
             }
         }
-        self.ev(kind, "", len, b.id, b.user);
+        self.ev_d(kind, "", len, b.id, b.user, !b.live);
     }
 }
 
@@ -256,16 +287,16 @@ fn on_event(e: Event) {
         Event::Read { ptr, len } => with(|s| s.access("read", ptr, len)),
         Event::Write { ptr, len } => with(|s| s.access("write", ptr, len)),
         Event::FetchAdd { addr, order, prev, .. } => with(|s| {
-            let (id, bu) = s.find(addr).map(|b| (b.id, b.user)).unwrap_or((0, 0));
-            s.ev("rmw+", ord(order), prev, id, bu)
+            let (id, bu, dead) = s.find(addr).map(|b| (b.id, b.user, !b.live)).unwrap_or((0, 0, false));
+            s.ev_d("rmw+", ord(order), prev, id, bu, dead)
         }),
         Event::FetchSub { addr, order, prev, .. } => with(|s| {
-            let (id, bu) = s.find(addr).map(|b| (b.id, b.user)).unwrap_or((0, 0));
-            s.ev("rmw-", ord(order), prev, id, bu)
+            let (id, bu, dead) = s.find(addr).map(|b| (b.id, b.user, !b.live)).unwrap_or((0, 0, false));
+            s.ev_d("rmw-", ord(order), prev, id, bu, dead)
         }),
         Event::Load { addr, order, val } => with(|s| {
-            let (id, bu) = s.find(addr).map(|b| (b.id, b.user)).unwrap_or((0, 0));
-            s.ev("load", ord(order), val, id, bu)
+            let (id, bu, dead) = s.find(addr).map(|b| (b.id, b.user, !b.live)).unwrap_or((0, 0, false));
+            s.ev_d("load", ord(order), val, id, bu, dead)
         }),
         Event::Fence { order } => with(|s| s.ev("fence", ord(order), 0, 0, 0)),
     }
@@ -332,6 +363,26 @@ pub fn set_tracked_block(b: Option<(usize, usize, usize)>) {
     with(|s| s.tracked = b);
     crate::gate::set_tracked(b.map(|(u, sz, _)| (u, sz)));
 }
+pub fn set_purge_at(n: usize) {
+    with(|s| s.purge_at = n)
+}
+/// One event as a record of the buffer-protocol monitor (spec/Heap.tla).
+pub fn heap_record(e: &Ev) -> serde_json::Value {
+    if e.dead {
+        serde_json::json!({"ev":"e","t":e.tid,"k":e.kind,"o":e.order,"v":e.val,"b":e.blk,"d":true})
+    } else {
+        serde_json::json!({"ev":"e","t":e.tid,"k":e.kind,"o":e.order,"v":e.val,"b":e.blk})
+    }
+}
+pub fn heap_log_start() {
+    with(|s| s.heap_log = Some(Vec::new()))
+}
+pub fn heap_log_take() -> Vec<Ev> {
+    with(|s| s.heap_log.as_mut().map(std::mem::take).unwrap_or_default())
+}
+pub fn take_errors() -> Vec<String> {
+    with(|s| std::mem::take(&mut s.errors))
+}
 pub fn take_events() -> Vec<Ev> {
     with(|s| std::mem::take(&mut s.events))
 }
@@ -349,7 +400,7 @@ pub fn take_events_into(out: &mut serde_json::Value, state: &str, op: &str, blk:
 pub fn mark(kind: &'static str) {
     with(|s| {
         if s.record_events {
-            s.events.push(Ev { tid: crate::gate::tid(), kind, order: "", val: 0, blk: 0, x: true });
+            s.events.push(Ev { tid: crate::gate::tid(), kind, order: "", val: 0, blk: 0, x: true, dead: false });
         }
     })
 }
